@@ -40,13 +40,16 @@ func (c06) Gen(rt *rapid.T, thorough bool) any {
 			n = rapid.IntRange(1, 80).Draw(rt, "nseq_t")
 		}
 		for i := 0; i < n; i++ {
-			s.Seq = append(s.Seq, rapid.SampledFrom([]int{0, 0, 0, 1, 2, 2}).Draw(rt, "seqop"))
+			s.Seq = append(s.Seq, rapid.SampledFrom([]int{0, 0, 0, 1, 2, 2, 3}).Draw(rt, "seqop"))
 		}
 		return s
 	}
 	s.Knobs.Watch = []string{":range"}
 	s.Gate = rapid.SampledFrom([]int{1, 1, 2}).Draw(rt, "gatemode")
 	s.Prefill = rapid.SampledFrom([]int{0, s.BufferSize - 6, s.BufferSize - 1, s.BufferSize + 1}).Draw(rt, "prefill_b")
+	for i, n := 0, rapid.IntRange(0, 3).Draw(rt, "nclock"); i < n; i++ {
+		s.Clock = append(s.Clock, rapid.SampledFrom([]int{1, 1500, 61000, 3600000}).Draw(rt, "clock_ms"))
+	}
 	total := 36
 	if thorough {
 		total = 60
@@ -207,6 +210,15 @@ func (c06) runSeq(x *Exec, s *AsyncScn) {
 				finishSeq(x, sys)
 				return
 			}
+		case 3:
+			// time passes while nothing else happens: nothing may change (Block keeps waiting)
+			x.Sim.Advance(90 * time.Second)
+			x.Sim.Run(nil)
+			x.Sim.Probe("clock_advanced")
+			if !check(fmt.Sprintf("op %d: 90 s pass", k)) {
+				finishSeq(x, sys)
+				return
+			}
 		}
 	}
 	o.Reached = m.overflow > 0
@@ -273,6 +285,7 @@ func (c06) runConc(x *Exec, s *AsyncScn) {
 		x.Sim.Run(nil)
 	}
 	sys.gateEnvs(x, s.Policy == "Block") // for the discard policies nothing may depend on the worker
+	clockEnvMs(x, s.Clock)
 	subs := make([][]*Sub, len(s.Producers))
 	sys.spawnProducers(x, subs)
 	res := x.Sim.Run(nil)
